@@ -303,11 +303,12 @@ class Report:
         self.known = []
         self.known_hits = []
         self.solver_errors = []
+        self.case_times = []
 
     def merge(self, o):
         for k in ('programs', 'cases', 'paths', 'queries', 'solver_s', 'engine_queries', 'engine_solver_s', 'compile_s', 'explore_s'):
             setattr(self, k, getattr(self, k) + getattr(o, k))
-        for k in ('violations', 'inconclusive', 'verified_cases', 'known_hits', 'solver_errors'):
+        for k in ('violations', 'inconclusive', 'verified_cases', 'known_hits', 'solver_errors', 'case_times'):
             getattr(self, k).extend(getattr(o, k))
         for s_ in o.samples:
             if len(self.samples) < 12:
@@ -316,11 +317,15 @@ class Report:
             self.flags[k] = self.flags.get(k, 0) + v
 
 
-def check_cases(cases, workdir, chunk=40, cfg=None, jobs=None, z3_timeout_ms=30000, report=None, progress=None, known=None, minify=False, keep_all=False):
+def check_cases(cases, workdir, chunk=40, cfg=None, jobs=None, z3_timeout_ms=30000, report=None, progress=None, known=None, minify=False, keep_all=False, heavy=None):
     """Compile, explore and verify all cases (in parallel, one process per chunk).  Returns a Report."""
     rep = report or Report()
     rep.known = known or []
-    chunks = [cases[i:i + chunk] for i in range(0, len(cases), chunk)]
+    # cases named by `heavy` get a program (and worker) of their own and are started first, so that one slow comparison
+    # does not serialise behind others
+    hv = [c for c in cases if heavy and heavy(c)]
+    rest = [c for c in cases if not (heavy and heavy(c))]
+    chunks = [[c] for c in hv] + [rest[i:i + chunk] for i in range(0, len(rest), chunk)]
     _WORK.update(chunks=chunks, workdir=workdir, cfg=dict(cfg or {}), known=known or [], z3_timeout_ms=z3_timeout_ms, minify=minify, keep_all=keep_all)
     if keep_all:
         core.gopherjs_keepall_bin()
@@ -378,6 +383,7 @@ def _verify_program(rep, z3, res, cases):
         rep.cases += 1
         paths = by_case.get(i, [])
         ok = True
+        _t_case = time.time()
         if not paths:
             rep.inconclusive.append({'tag': c.tag, 'reason': 'no path reached this case (vacuous)'})
             continue
@@ -404,6 +410,7 @@ def _verify_program(rep, z3, res, cases):
         if r != 'unsat':
             ok = False
             rep.inconclusive.append({'tag': c.tag, 'reason': 'coverage of the input space not shown (%s)' % r})
+        rep.case_times.append((round(time.time() - _t_case, 1), c.tag))
         if ok:
             rep.verified_cases.append(c.tag)
             if len(rep.samples) < 12:
